@@ -44,7 +44,10 @@ def handleFix (op : String) (inp : Json) (impl : Option Json) : R (Option Json) 
     let P : FixParams := {
       permT := ← getList getNat (← fld inp "permT"), wingT := ← getNat (← fld inp "wingT"),
       permA := ← getList getNat (← fld inp "permA"), wingA := ← getNat (← fld inp "wingA"),
-      sqrtSize := sq, varT := ← getRat (← fld inp "varT"), varA := ← getRat (← fld inp "varA") }
+      sqrtSize := sq, varT := ← getRat (← fld inp "varT"), varA := ← getRat (← fld inp "varA"),
+      edgeKeysT := ← (match optFld inp "edge_keys" with
+        | some j => do pure (some (← getList getRat j))
+        | none => pure none) }
     let res := doFix tgt anti ref cfg P
     let outJ : Json := match res with
       | .ok rows => arrJ (rows.map fun o =>
@@ -100,7 +103,7 @@ def handleFix (op : String) (inp : Json) (impl : Option Json) : R (Option Json) 
                      (if cOk then [] else ["output_centered"]) ++
                      (if dOk then [] else ["nocorr_difference_plus_class_constant"]) ++
                      (if mono then [] else ["weight_monotone"])).map strJ)))
-    pure (some (obj [("out", outJ), ("spec", spec)]))
+    pure (some (obj [("out", outJ), ("spec", spec), ("edge_key_dev", ratJ (doFixSlack tgt ref cfg P))]))
   | "edge_bias" =>
     let t ← getList getSRow (← fld inp "rows")
     let margin ← getInt (← fld inp "margin")
